@@ -447,6 +447,5 @@ func c17bBody(env *simrt.Env) {
 	go func() { idc <- simrt.CurrentTaskID() }()
 	ntasks := <-idc
 	sample["tasks"] = ntasks
-	simrt.Hit(fmt.Sprintf("tasks-made-%02dk", ntasks/1000))
 	env.Sample(sample)
 }
